@@ -463,6 +463,59 @@ def container_history(rng, nops):
     g.emit('end')
     return g.lines
 
+def slot_history(rng, nops):
+    """the slot level of Arrays: insertions at every index (0, interior, index == len, -1, out of range), into storage that was
+    just grown (never-used slots), that keeps the headers of popped elements, or that is exactly full; pops that shrink the
+    storage and pops that do not; resize to 0 / smaller / the same size / larger followed by insertions into the new slots;
+    concat of 0..n items; copies (storage exactly as large as the contents).  After every insertion the new element is looked at."""
+    g = Gen(rng, max_stack=4)
+    for _ in range(2): g.mk_int('new'); g.mk_str('new'); g.mk_int('stack'); g.mk_str('static')
+    g.mk_rtt('new'); g.mk_rto('new'); g.mk_rto('new_raw')
+    g.mk_tup('new', g.fixed_items()[:2]); g.mk_seq('arr', 'new', 'Int', 2)
+    arrs = [g.mk_seq('arr', rng.choice(['new', 'new_raw', 'new_root']), ety, rng.choice([0, 0, 1, 2, 3, 4, 6]))
+            for ety in ('Int', 'String', 'Int', rng.choice(['Tuple', 'Array', 'Int']), 'RT' + str(list(g.rt)[0]))]
+    lsts = [g.mk_seq('lst', 'new', 'Int', rng.choice([0, 2, 5])), g.mk_seq('lst', 'new', 'String', 3)]
+    def src_for(h):
+        sk = ('int',) if h.ety == 'Int' else ('str',) if h.ety == 'String' else ('tup',) if h.ety == 'Tuple' else ('arr',) if h.ety == 'Array' else ('rto',)
+        c = g.live(lambda x: x.kind in sk and (x.kind != 'arr' or x.ety == 'Int'))
+        return rng.choice(c) if c else 0
+    for _ in range(nops):
+        if g.next > 540: break
+        i = rng.choice(arrs); h = g.h[i]
+        if not h.live: continue
+        c = rng.random()
+        if c < 0.34:
+            k = rng.choice([h.n, h.n, -1, 0, h.n // 2, h.n + 1, -h.n - 1, -h.n - 2, rng.randrange(-h.n - 1, h.n + 1)])
+            g.emit(f'push_at {i} {src_for(h)} {k}')
+            ok = (-h.n - 1 <= k <= h.n)
+            if ok:
+                j = k if k >= 0 else h.n + 1 + k
+                h.n += 1; g.emit(f'obs {i}.{j}')
+                if rng.random() < 0.3: g.emit(f'{rng.choice(["dealloc", "del", "dealloc_raw"])} {i}.{j}')
+        elif c < 0.46: g.emit(f'push {i} {src_for(h)}'); h.n += 1; g.emit(f'obs {i}.{h.n - 1}')
+        elif c < 0.58:
+            if rng.random() < 0.5: g.emit(f'pop {i}'); h.n = max(0, h.n - 1)
+            else:
+                k = rng.choice([0, -1, h.n - 1, h.n, -h.n, -h.n - 1, rng.randrange(-h.n - 1, h.n + 1)])
+                g.emit(f'pop_at {i} {k}')
+                if -h.n <= k < h.n: h.n -= 1
+        elif c < 0.76:
+            m = rng.choice([0, max(0, h.n - 1), h.n, h.n, h.n + 1, h.n + 3, h.n // 2, h.n + 8])
+            g.emit(f'resize {i} {m}'); h.n = min(h.n, m)
+            if m and rng.random() < 0.7: g.emit(f'push_at {i} {src_for(h)} {h.n}'); h.n += 1; g.emit(f'obs {i}.{h.n - 1}')
+        elif c < 0.88:
+            o = [x for x in arrs + lsts if x != i and g.h[x].live and g.h[x].ety == h.ety]
+            if o and h.n < 50:
+                o = rng.choice(o); g.emit(f'concat {i} {o}'); h.n += g.h[o].n
+                if h.n: g.emit(f'obs {i}.{h.n - 1}')
+        elif c < 0.94:
+            g.emit(f'cpy {g.next} {i}'); j = g.fresh(); g.h[j] = H('arr', 'new', ety=h.ety, n=h.n); arrs.append(j)
+        else: g.emit(f'iter {i} {rng.choice(["fwd", "back"])}')
+    for i in arrs:
+        if g.h[i].live: g.emit(f'iter {i} fwd'); g.emit(f'obs {i}')
+    g.emit('end')
+    return g.lines
+
 class C19(Spec):
     id = 'C19'; engine = 'hdr'; harness = 'h_hdr'; driver = 'drv_hdr'
     generators = ('Hdr',)
@@ -472,7 +525,10 @@ class C19(Spec):
                  'for every history of operations; the parameters a source change can flip (enum values, every header_init site, the order of checks in dealloc, '
                  'the guard of every reallocating String/Tuple function, where objects are registered, the order of "un-list" and "finalise" on every release path) '
                  'are re-extracted from /repo on every run and the theorems are '
-                 're-checked against them; white-box differential check of the model against the real library, release sequence included')
+                 're-checked against them; the size-changing functions of Array.c are read statement by statement into programs of a slot machine (Cello/HdrSlots.lean: '
+                 'storage of nslots slots that hold what was last written to them) and "every element slot carries the header Array_Alloc writes" is proved for every history '
+                 'of those programs; the block arithmetic of alloc_stack / $ / header_init / header() / alloc_by / the poison fill of dealloc is read as size terms; '
+                 'white-box differential check of the model against the real library, release sequence included, element count / slot count / bad slots of every Array after every operation')
     level_text = ('Theorems (CelloProofs/Props/C19.lean), for every configuration that is Sound and for Config.current (decided over tables regenerated from the source): '
                   'every reachable state of the model is well formed — each object handed out by new/new_raw/new_root/alloc*/$/copy/run-time Type carries the constructing '
                   'type, the class of its route and the magic number; each element, key and value of Array/List/Table/Tree carries the declared type and class data and has '
@@ -484,6 +540,11 @@ class C19(Spec):
                   'wait on the pending list of the sweep under way, in every pending order, at forced and threshold collections and at the teardown: every victim of a '
                   'collection is released exactly once and no released block is touched — for every collection and teardown that releases no run-time Type object before or under a live object of that type (explicit hypothesis typeLost / typeFirst = false; the full statements are refuted: C19_type_outlived_refuted). The order "un-list, then finalise" of GC_Sweep\'s release loop and of both branches of '
                   'GC_Rem_Ptr is read from the source; with the other order the model exhibits the double finalisation (C19_late_clear_refuted). '
+                  'Slot level (section H): for every history of push / push_at (every index, index == len and negative ones included) / pop / pop_at / concat / resize (to 0, smaller, same, larger) / '
+                  'assign-from-n-items run as the statement lists read from src/Array.c, every slot below nitems holds exactly header_init(.., a->type, AllocData), nitems <= nslots, no call meets a slot '
+                  'without a header or leaves the storage, a refused call changes nothing (C19_array_slots_carry_headers, C19_array_ops_end_well; C19_array_programs_current pins what was read); '
+                  '$(T, ..) writes exactly the bytes behind the header of the literal alloc_stack(T) makes (C19_stack_birth_block); dealloc poisons every header word of a released block and never '
+                  'writes beyond it (C19_dealloc_fill_stays_in_block). '
                   'The model is tied to the implementation by executing thousands of generated histories on both, comparing type, class, '
                   'registration, value and the exact sequence of released blocks after every operation.')
     level_note = ('Trusted: Lean kernel (axioms propext / Quot.sound / Classical.choice at most); translate/g_hdr.py (text extraction); harness/driver comparison (testing); '
@@ -500,10 +561,16 @@ class C19(Spec):
             'iteration, views and collector runs with chosen victims; (c) container histories that create, move and drop many elements and then look at every one; '
             '(d) release histories: Boxes wired into chains, rings, self-loops, shared and dangling owners over registered / root / raw / stack / static objects and containers, '
             'released by del, del_root, del_raw, forced collections, threshold collections (registrations until GC_Set collects) and the teardown at exit (forked child, '
-            'ledger reported after Cello_Exit), each with a chosen pending order (owner before owned and owned before owner). '
+            'ledger reported after Cello_Exit), each with a chosen pending order (owner before owned and owned before owner); '
+            '(e) slot histories of Arrays: insertions at index 0 / interior / == len / -1 / out of range into storage that has just grown, is exactly full, was enlarged by resize or keeps the '
+            'headers of popped elements, pops that do and do not shrink the storage, resize to 0 / smaller / same / larger, concat of 0..n items, copies; the new element is looked at after '
+            'every insertion (branch counters: I slots ..). '
             'non-trivial item = an (operation, observation) pair whose observation shows a refusal (an exception), a release, a non-heap or embedded object, '
             'or a non-empty iteration; distinct = distinct pair text (ids replaced by #, so a release sequence counts by its length and shape).')
-    trusted_base = ('translate/g_hdr.py (regex extraction from Cello.h, Alloc.c, Type.c, String.c, Tuple.c, Array.c, List.c, Table.c, Tree.c, GC.c)',
+    trusted_base = ('translate/g_hdr.py (regex extraction from Cello.h, Alloc.c, Type.c, String.c, Tuple.c, Array.c, List.c, Table.c, Tree.c, GC.c; the statement reader of Array.c '
+                    'accepts a fixed fragment and raises ExtractError on anything else)',
+                    'the slot machine of Cello/HdrSlots.lean and the list model of Cello/Hdr.lean are two models of an Array: the driver runs both and prints `slots=!` when they disagree on the '
+                    'number of elements (tested, not proved); List / Table / Tree entry births stay at the level of header sites + list model',
                     'harness/h_hdr.c + lean/Driver/Hdr.lean (correspondence is testing); free/realloc hooks are macros in the unity build; the marks and the pending order of a '
                     'collection are set white-box at the first statement of GC_Sweep (ptr words of the victims\' registry entries exchanged among themselves: what another '
                     'assignment of addresses would give), the mark phase itself is C01\'s business',
@@ -539,6 +606,10 @@ class C19(Spec):
         for i in range(n_rel):
             r = random.Random(rng.random())
             cs.append(Case(f'rel{i}', release_history(r, r.randrange(2, 8 if quick else 14))))
+        n_slot = (12 if quick else 500) * boost
+        for i in range(n_slot):
+            r = random.Random(rng.random())
+            cs.append(Case(f'slot{i}', slot_history(r, r.randrange(40, 120 if quick else 400))))
         n_cont = (10 if quick else 400) * boost
         for i in range(n_cont):
             r = random.Random(rng.random())
@@ -570,7 +641,9 @@ class C19(Spec):
                 if n >= 2: acc['nested_' + k] = acc.get('nested_' + k, 0) + 1; acc['max_cascade'] = max(acc.get('max_cascade', 0), n)
         for l in core.lines_with('I ', c_out):
             m = re.search(r'refused=(\d+)', l)
-            if m: acc['refused'] = acc.get('refused', 0) + int(m.group(1))
+            if m and not l.startswith('I slots'): acc['refused'] = acc.get('refused', 0) + int(m.group(1))
+            if l.startswith('I slots'):
+                for k, v in re.findall(r'([\w-]+)=(\d+)', l): acc['slot_' + k] = acc.get('slot_' + k, 0) + int(v)
     def model_selfcheck(self, case, m_out):
         m = re.search(r'^S .*sound=(\w+)', m_out, flags=re.M)
         if m and m.group(1) != 'true':
